@@ -3,3 +3,5 @@
 package cluster
 
 func verifSendShard(args *RPCSendShardRequest) error { return nil }
+
+func verifSetNodeKeyValue(c *ClusterNode, args *RPCSetNodeKeyValueRequest) error { return nil }
